@@ -25,6 +25,10 @@ structure POut where
   tags : List String := []
   /-- `some msg` when the executor is known to panic / not to exist (`todo!()`). -/
   unsupported : Option String := none
+  /-- is the ORDER of the rows a function of the input?  `false` after an operator that emits in
+  hash-map iteration order (hashagg, the unmatched tail of a left/full hash join) or after
+  `order`/`topn` (`sort_unstable_by`, heap: ties in unknown order). -/
+  orderKnown : Bool := true
 
 def sexpIdx (schema : List Sexp) (e : Sexp) : Option Nat :=
   let rec go : List Sexp → Nat → Option Nat
@@ -312,7 +316,7 @@ def runPlan (tables : List Table) (spec : Bool) : Nat → Sexp → Except String
       | .error e => .error e
       | .ok o =>
         let keys := mkOrderKeys o.schema (listArgs ks)
-        .ok { o with chunks := if spec then [orderRel keys (flat o.chunks)] else orderExec keys o.chunks }
+        .ok { o with chunks := if spec then [orderRel keys (flat o.chunks)] else orderExec keys o.chunks, orderKnown := false }
     | .list [.atom "limit", n, off, c] =>
       match runPlan tables spec fuel c, natOf n, natOf off with
       | .ok o, some n, some off =>
@@ -323,7 +327,7 @@ def runPlan (tables : List Table) (spec : Bool) : Nat → Sexp → Except String
       match runPlan tables spec fuel c, natOf n, natOf off with
       | .ok o, some n, some off =>
         let keys := mkOrderKeys o.schema (listArgs ks)
-        .ok { o with chunks := if spec then [topNRel (some n) off keys (flat o.chunks)] else topNExec n off keys o.chunks }
+        .ok { o with chunks := if spec then [topNRel (some n) off keys (flat o.chunks)] else topNExec n off keys o.chunks, orderKnown := false }
       | .error e, _, _ => .error e
       | _, _, _ => .error "bad topn"
     | .list [.atom "join", jt, on, l, r] =>
@@ -338,7 +342,8 @@ def runPlan (tables : List Table) (spec : Bool) : Nat → Sexp → Except String
         let outTys := if semiLike then lo.types else lo.types ++ ro.types
         let specRows := joinRel t pr nL nR (flat lo.chunks) (flat ro.chunks)
         let base : POut := { schema := outSch, types := outTys, chunks := [specRows],
-                             tags := lo.tags ++ ro.tags, unsupported := lo.unsupported <|> ro.unsupported }
+                             tags := lo.tags ++ ro.tags, unsupported := lo.unsupported <|> ro.unsupported,
+                             orderKnown := lo.orderKnown && ro.orderKnown }
         if spec then .ok base
         else match t with
           | .inner => .ok { base with chunks := nlJoin false pr nR lo.chunks ro.chunks }
@@ -367,7 +372,9 @@ def runPlan (tables : List Table) (spec : Bool) : Nat → Sexp → Except String
         let R := flat ro.chunks
         let specRows := joinRel t (equiOn nL lk rk resid) nL nR L R
         let base : POut := { schema := outSch, types := outTys, chunks := [specRows],
-                             tags := lo.tags ++ ro.tags, unsupported := lo.unsupported <|> ro.unsupported }
+                             tags := lo.tags ++ ro.tags, unsupported := lo.unsupported <|> ro.unsupported,
+                             orderKnown := lo.orderKnown && ro.orderKnown &&
+                               (h == "mergejoin" || !(t == .leftOuter || t == .fullOuter)) }
         if spec then .ok base
         else
           let merge := h == "mergejoin"
@@ -420,8 +427,13 @@ def runPlan (tables : List Table) (spec : Bool) : Nat → Sexp → Except String
             let grouped := h == "hashagg" || (dedup (X.map (keyOf keys))).length == (groupByKeys keys X).length || keys.isEmpty
             let tg := (if !grouped && !sameBag (flat out) specRows then ["sortagg:unsorted-input"]
                       else aggTags "row" keys.length aggs X (flat out) specRows) ++
-                      (if h == "sortagg" && !keys.isEmpty then orderSensitive keys aggs X else [])
-            .ok { o with schema := outSch, types := outTys, chunks := out, tags := o.tags ++ tg }
+                      (if !o.orderKnown then orderSensitive keys aggs X else [])
+            .ok { o with schema := outSch, types := outTys, chunks := out, tags := o.tags ++ tg,
+                         orderKnown := h == "sortagg" && o.orderKnown }
+    | .list [.atom "empty", c] =>
+      match runPlan tables spec fuel c with
+      | .error e => .error e
+      | .ok o => .ok { o with chunks := [] }
     | _ => .error "unsupported plan node"
 
 def planFuel : Nat := 64
